@@ -82,6 +82,8 @@ def handle (op : String) (args : List String) : Option String :=
   -- C10: helpers
   | "flv.tohz", [v] => do let v ← u8 v; pure ((toHz v).str toString)
   | "flv.opustohz", [v] => do let v ← u8 v; pure ((opusToHz v).str toString)
+  | "flv.from", [v] => do
+    let v ← u8 v; pure s!"ok {samplingRateFrom v} {samplingRateOpusFrom v} {channelsFrom v}"
   | "flv.str", [ty, v] => do
     let v ← u8 v
     if ty == "AudioFrameTrait" then pure ("ok " ++ audioTraitString v) else
